@@ -49,6 +49,7 @@ type Interp struct {
 	curIf *ssa.If
 	luts  map[*Term]*lutRec
 	pendingDeferOf *frame
+	syncMaps map[Ptr]*MapV
 }
 
 func NewInterp(prog *ssa.Program, ex *Explorer) *Interp {
@@ -60,6 +61,7 @@ func (in *Interp) reset() {
 	in.inited = map[*ssa.Package]bool{}
 	in.steps = 0
 	in.luts = nil
+	in.syncMaps = nil
 }
 
 // funcInfo numbers the SSA values of a function so that frames keep them in a slice.
